@@ -21,7 +21,8 @@ pub fn builtin_length(x: Either![IStr, ArrValue, ObjValue, FuncVal]) -> usize {
 		A(x) => x.chars().count(),
 		B(x) => x.len(),
 		C(x) => x.len(),
-		D(f) => f.params_len(),
+		// Documented as the number of parameters, those with defaults included
+		D(f) => f.params().len(),
 	}
 }
 
